@@ -17,6 +17,22 @@
  *   AfterAtMostOnce / exactly once for dispatch_after
  *   Fires            every armed, unsuspended, uncancelled timer is invoked (waits generously; a miss is a
  *                    violation only when the process is quiescent with the timer overdue by 10 s, or after 45 s)
+ * WHICH configuration an invocation has to follow (Timer.tla: TInvoke sees pend.gen = 0, TLatch evaluates the laws on
+ * the configuration applied then; a SetTimer between the two is the only way an "old" invocation is legitimate):
+ * _dispatch_source_invoke2 delivers (latch_and_call) only after its load of dt_pending_config returned NULL, i.e. every
+ * configuration whose publication (the xchg in dispatch_source_set_timer) precedes that load has been applied by
+ * _dispatch_timer_unote_configure, which also cleared the pending data.  Both words are hooked atomics: the driver
+ * serialises the accesses to dt_pending_config of its timers (pre/post callbacks of shims/atomic.h) and counts the
+ * publications, so inside the handler (same thread, same invoke2) it knows EXACTLY the generation G the invocation has
+ * to follow: the number of publications that preceded the needs-configuration load of this very invoke.  Scheduling
+ * delay cannot make this wrong in either direction (no wall-clock reasoning at all).
+ * Reconfiguration scenarios (about a third of the sources), each followed by the oracles above:
+ *   A fire while the source is suspended (the timer leaves the heap with count<<1|DISARMED_MARKER), set_timer, resume
+ *   B fire twice while the serial target queue is busy (second fire disarms), set_timer (foreign thread during the
+ *     busy period / own queue right behind the busy block), queue drains
+ *   C slow handler (timer is disarmed behind its back) that calls set_timer itself
+ *   D one-shot that already fired, set_timer
+ * and the statistics `configure_on_disarmed_pending` = configures that found count<<1|MARKER in ds_pending_data.
  * Trace mode (5th argument): every start/interval is a whole microsecond and the guarded H5 probes of
  * event.c / event_epoll.c (manager-side decisions: arm, disarm, run, fire, program, timerfd event, blocking
  * epoll_wait) are recorded and written as ndjson for spec/TimerTrace.tla, times in microseconds since a base.
@@ -43,10 +59,12 @@
 
 #define MAXG 12
 #define MAXOPS 8
+#define HSLOTS 4096
 #define NLOG 24
 #define FAR_NS (5ull * NSEC_PER_SEC)
 enum { K_SOURCE = 0, K_AFTER = 1, K_AFTER_F = 2 };
-enum { OP_SET_OWN = 1, OP_SET_FOREIGN, OP_SUSPEND, OP_RESUME, OP_CANCEL };
+enum { OP_SET_OWN = 1, OP_SET_FOREIGN, OP_SUSPEND, OP_RESUME, OP_CANCEL, OP_BUSY };
+enum { SC_RANDOM = 0, SC_SUSP_FIRE, SC_BUSY_QUEUE, SC_SLOW_HANDLER, SC_ONESHOT_FIRED, SC_N };
 
 typedef struct {
 	int clock;            /* DISPATCH_CLOCK_UPTIME / MONOTONIC / WALL */
@@ -58,7 +76,7 @@ typedef struct {
 } cfg_t;
 
 typedef struct { int kind; int64_t delta_ns; int how; uint64_t interval_ns, leeway_ns; int clock; } cfgspec_t;
-typedef struct { int op; uint64_t at_ms; cfgspec_t spec; } op_t;
+typedef struct { int op; uint64_t at_ms; cfgspec_t spec; uint64_t dur_us; } op_t;
 typedef struct { char what; int gen; uint64_t now, data, aux; } logrec_t;
 
 typedef struct tmr {
@@ -73,6 +91,10 @@ typedef struct tmr {
 	_Atomic int ninv, ninv_settled, suspended, cancelled;
 	_Atomic uint64_t settle_up;    /* uptime after which an invocation counts for the final "fires" obligation */
 	int inh_at; cfgspec_t inh_spec; /* set_timer from inside the handler at invocation number inh_at */
+	int scen; int slow_at; uint64_t slow_us;   /* scenario; handler sleeps slow_us at invocation slow_at */
+	/* binding to the hooked words (guarded by hl) */
+	_Atomic int hl; int gen_x;     /* publications so far: xchg(dt_pending_config, new) in dispatch_source_set_timer */
+	const void *dt;
 	op_t ops[MAXOPS]; int nops;
 	cfgspec_t first;
 	/* dispatch_after */
@@ -84,6 +106,8 @@ static tmr_t *T; static int N;
 static uint64_t g_seed; static const char *g_failout;
 static _Atomic int g_fail;
 static _Atomic long g_invocations, g_checks_exact, g_checks_weak, g_zero_data, g_inconclusive, g_after_runs, g_sets;
+static _Atomic long g_checks_bound, g_bind_mismatch, g_cfg_disarmed_pending, g_cfg_armed_pending, g_cfgs, g_cfg_unclosed;
+static long g_scen[SC_N], g_trace_cfgs;
 static uint64_t g_t0_up;
 
 /* ---- trace mode ---- */
@@ -100,6 +124,91 @@ static void probe_cb(const char *kind, const volatile void *obj, long a, long b)
 	unsigned i = atomic_load(&g_nprec);
 	if (i < PCAP) { g_prec[i] = (prec_t){ kind, (const void *)obj, a, b }; atomic_store(&g_nprec, i + 1); }
 	atomic_store_explicit(&g_plock, 0, memory_order_release);
+}
+
+/* ---- the two words of a timer the property speaks about, observed through the hooked atomics ----
+ * dt_pending_config: accesses of registered timers are serialised (pre locks, post unlocks) so that "publication
+ *                    precedes the needs-configuration load" is decided exactly;
+ * ds_pending_data:   the first access of a thread after its xchg in _dispatch_timer_unote_configure is reported
+ *                    (trace mode: record "configure" for TimerTrace.tla, law ConfigureClearsPending). */
+static struct { const void *_Atomic dt; struct tmr *t; } g_map[HSLOTS];
+static unsigned hslot(const void *p) { return (unsigned)((((uintptr_t)p) >> 4) * 2654435761u) % HSLOTS; }
+static void map_timer(const void *dt, struct tmr *t)
+{
+	unsigned i = hslot(dt);
+	while (atomic_load(&g_map[i].dt)) i = (i + 1) % HSLOTS;
+	g_map[i].t = t; atomic_store(&g_map[i].dt, dt);
+}
+static struct tmr *timer_of(const void *dt)
+{
+	for (unsigned i = hslot(dt);; i = (i + 1) % HSLOTS) {
+		const void *d = atomic_load(&g_map[i].dt);
+		if (!d) return NULL;
+		if (d == dt) return g_map[i].t;
+	}
+}
+static __thread struct { struct tmr *t; int gen; int isnull; } tl_chk;   /* this thread's last look at a dt_pending_config */
+static __thread struct tmr *tl_locked;
+static __thread struct { struct tmr *t; const void *dt; uint64_t pend; } tl_cfg;   /* configure in progress on this thread */
+static void prec_add(const char *kind, const void *obj, long a, long b)
+{
+	while (atomic_exchange_explicit(&g_plock, 1, memory_order_acquire)) { }
+	unsigned i = atomic_load(&g_nprec);
+	if (i < PCAP) { g_prec[i] = (prec_t){ kind, obj, a, b }; atomic_store(&g_nprec, i + 1); }
+	atomic_store_explicit(&g_plock, 0, memory_order_release);
+}
+static int site_class(struct dispatch_verif_site_s *site)
+{
+	int c = site->dvs_class;
+	if (c == 0) {      /* classified once per site (idempotent) */
+		c = strstr(site->dvs_expr, "dt_pending_config") ? 1 : strstr(site->dvs_expr, "ds_pending_data") ? 2 : -1;
+		site->dvs_class = c;
+	}
+	return c;
+}
+static void hook_pre(struct dispatch_verif_site_s *site, const volatile void *addr)
+{
+	if (site_class(site) != 1) return;
+	struct tmr *t = timer_of((const char *)addr - offsetof(struct dispatch_timer_source_refs_s, dt_pending_config));
+	if (!t) return;
+	for (unsigned spins = 0; atomic_exchange_explicit(&t->hl, 1, memory_order_acquire); spins++) if (spins > 200) sched_yield();
+	tl_locked = t;
+}
+static void hook_post(struct dispatch_verif_site_s *site, const volatile void *addr, unsigned long long ov,
+		unsigned long long nv, int ok, unsigned size)
+{
+	int c = site_class(site);
+	(void)ok; (void)size;
+	if (c == 1) {
+		struct tmr *t = tl_locked;
+		if (!t) return;
+		tl_locked = NULL;
+		if (site->dvs_op[0] == 'x' && nv != 0) {            /* dispatch_source_set_timer publishes a configuration */
+			t->gen_x++;
+		} else if (site->dvs_op[0] == 'x') {                /* _dispatch_timer_unote_configure takes it */
+			uint64_t pend = *(volatile uint64_t *)&((dispatch_timer_source_refs_t)t->dt)->ds_pending_data;
+			tl_chk.t = t; tl_chk.gen = t->gen_x; tl_chk.isnull = 1;
+			if (tl_cfg.t) atomic_fetch_add(&g_cfg_unclosed, 1);
+			tl_cfg.t = t; tl_cfg.dt = t->dt; tl_cfg.pend = pend;
+			atomic_fetch_add(&g_cfgs, 1);
+			if (pend & DISPATCH_TIMER_DISARMED_MARKER) atomic_fetch_add(&g_cfg_disarmed_pending, 1);
+			else if (pend) atomic_fetch_add(&g_cfg_armed_pending, 1);
+		} else if (site->dvs_op[0] == 'l') {                /* needs_configuration / needs_rearm / timers_run */
+			tl_chk.t = t; tl_chk.gen = t->gen_x; tl_chk.isnull = (ov == 0);
+		}
+		atomic_store_explicit(&t->hl, 0, memory_order_release);
+	} else if (c == 2 && tl_cfg.t) {
+		/* first access of this thread to the ds_pending_data of the timer it has just configured */
+		if ((const char *)addr - offsetof(struct dispatch_timer_source_refs_s, ds_pending_data) != (const char *)tl_cfg.dt) return;
+		const char *op = site->dvs_op;
+		long opc = !strcmp(op, "store") ? 1 : !strcmp(op, "xchg") ? 2 : !strcmp(op, "load") ? 3 : 4;
+		/* a load inside configure itself decides nothing (a benign "if (pending) clear" stays quiet) */
+		if (opc == 3 && strstr(site->dvs_func, "_dispatch_timer_unote_configure")) return;
+		if (g_traceout && g_prec)
+			prec_add("tm_configure", tl_cfg.dt, (long)(tl_cfg.pend > 3 ? 2 | (tl_cfg.pend & 1) : tl_cfg.pend),
+					(opc << 16) | ((ov > 255 ? 255 : (long)ov) << 8) | (nv > 255 ? 255 : (long)nv));
+		tl_cfg.t = NULL;
+	}
 }
 
 static uint64_t rng_state;
@@ -124,8 +233,9 @@ static void tlog(tmr_t *t, char what, int gen, uint64_t now, uint64_t data, uint
 
 static void dump_timer(FILE *f, tmr_t *t)
 {
-	fprintf(f, "{\"timer\":%d,\"kind\":%d,\"own_queue_controlled\":%d,\"gen_pub\":%d,\"gen_done\":%d,\"cur\":%d,\"configs\":[",
-			t->id, t->kind, t->own, atomic_load(&t->gen_pub), atomic_load(&t->gen_done), t->cur);
+	static const char *SCN[] = { "random", "fire-while-suspended,set_timer,resume", "fire-while-target-queue-busy,set_timer", "slow-handler-sets-timer", "one-shot-fired,set_timer" };
+	fprintf(f, "{\"timer\":%d,\"kind\":%d,\"scenario\":\"%s\",\"own_queue_controlled\":%d,\"gen_pub\":%d,\"gen_done\":%d,\"cur\":%d,\"publications_seen\":%d,\"configs\":[",
+			t->id, t->kind, SCN[t->scen], t->own, atomic_load(&t->gen_pub), atomic_load(&t->gen_done), t->cur, t->gen_x);
 	for (int g = 1; g <= atomic_load(&t->gen_pub) && g < MAXG; g++)
 		fprintf(f, "%s{\"gen\":%d,\"clock\":\"%s\",\"forever\":%d,\"exact\":%d,\"start\":%llu,\"interval\":%llu,\"reported\":%llu}", g > 1 ? "," : "", g,
 				CLK[t->cfgs[g].clock], t->cfgs[g].forever, t->cfgs[g].exact, (unsigned long long)t->cfgs[g].start,
@@ -235,8 +345,12 @@ static int check_gen(tmr_t *t, int g, uint64_t data, int commit, uint64_t *nowp)
 static void source_handler(void *ctx)
 {
 	tmr_t *t = ctx;
+	/* the needs-configuration load of the invoke2 that is delivering this invocation (same thread): it returned NULL
+	 * after exactly G publications */
+	int bound = tl_chk.t == t && tl_chk.isnull, G = tl_chk.gen;
 	int pub = atomic_load(&t->gen_pub), done = atomic_load(&t->gen_done);
 	uint64_t data = dispatch_source_get_data(t->ds), now = 0;
+	if (bound && (G < 1 || G > pub || G >= MAXG)) bound = 0;
 	int n = atomic_fetch_add(&t->ninv, 1) + 1;
 	atomic_fetch_add(&g_invocations, 1);
 	if (data == 0) atomic_fetch_add(&g_zero_data, 1);
@@ -248,6 +362,18 @@ static void source_handler(void *ctx)
 		else if (r == 1) oracle_fail(t, "NeverEarly", "handler invoked before the start time of the configuration in force (now=a < start=b on its own clock)", now, t->cfgs[g].start);
 		else if (r == 2) oracle_fail(t, "CountBound", "cumulative dispatch_source_get_data (a, including this invocation) exceeds the interval boundaries passed (b)", t->cum[g] + data, boundaries(&t->cfgs[g], now));
 		else if (r == 3) oracle_fail(t, "OnlyNewConfig", "handler invoked although the configuration in force has start DISPATCH_TIME_FOREVER (a replaced configuration was honoured)", (uint64_t)g, data);
+		if (bound) { atomic_fetch_add(&g_checks_bound, 1); if (G != g) atomic_fetch_add(&g_bind_mismatch, 1); }
+	} else if (bound) {
+		/* foreign-thread set_timer, exact: the invoke that delivers this invocation saw dt_pending_config == NULL after
+		 * G publications, so configurations 1..G have been applied (pending data cleared) and G is the one in force */
+		int r = check_gen(t, G, data, 1, &now);
+		tlog(t, 'b', G, now, data, (uint64_t)r);
+		atomic_fetch_add(&g_checks_exact, 1); atomic_fetch_add(&g_checks_bound, 1);
+		if (r == -1) atomic_fetch_add(&g_inconclusive, 1);
+		else if (r == 1) oracle_fail(t, "NeverEarly", "handler invoked before the start time of the configuration in force: the invoke found no unapplied configuration after b publications (now=a < start of generation b)", now, (uint64_t)G);
+		else if (r == 2) oracle_fail(t, "CountBound", "cumulative dispatch_source_get_data (a, including this invocation) exceeds the interval boundaries passed (b) of the configuration in force", t->cum[G] + data, boundaries(&t->cfgs[G], now));
+		else if (r == 3) oracle_fail(t, "OnlyNewConfig", "handler invoked although the configuration in force has start DISPATCH_TIME_FOREVER (a replaced configuration was honoured)", (uint64_t)G, data);
+		t->last_done_prev = done;
 	} else {
 		/* foreign-thread set_timer: generations that may legitimately be followed by this invocation:
 		 * from the newest whose call had returned when the PREVIOUS invocation was entered, to the newest started */
@@ -264,6 +390,7 @@ static void source_handler(void *ctx)
 		t->last_done_prev = done;
 	}
 	if (_dispatch_uptime() >= atomic_load(&t->settle_up) && pub == done) atomic_fetch_add(&t->ninv_settled, 1);
+	if (t->slow_at == n) usleep((useconds_t)t->slow_us);       /* the timer is disarmed behind the handler's back */
 	if (t->own && t->inh_at == n) do_set(t, &t->inh_spec, 1);
 }
 
@@ -301,6 +428,64 @@ static void gen_spec(cfgspec_t *s, int allow_forever)
 	s->leeway_ns = l == 0 ? 0 : l == 1 ? NSEC_PER_MSEC : l == 2 ? rndin(0, 40) * NSEC_PER_MSEC : DISPATCH_TIME_FOREVER;
 }
 
+/* the configuration a scenario switches TO: mostly well ahead (a stale invocation is then early), sometimes now / past /
+ * far (then the count bound is what a stale invocation breaks) */
+static void gen_reconf_spec(cfgspec_t *s)
+{
+	gen_spec(s, 0);
+	unsigned k = (unsigned)rndin(0, 99);
+	if (k < 70) { s->how = (int)rndin(0, 1); s->delta_ns = (int64_t)rndin(80, 300) * (int64_t)NSEC_PER_MSEC + (int64_t)rndin(0, 999999); }
+	else if (k < 85) { s->how = 2; s->delta_ns = 0; }
+	if (s->interval_ns && s->interval_ns < 3 * NSEC_PER_MSEC) s->interval_ns += 3 * NSEC_PER_MSEC;
+}
+
+/* reconfiguration of a timer that has an undelivered fire (see the header) */
+static void gen_scenario(tmr_t *t)
+{
+	unsigned k = (unsigned)rndin(0, 99);
+	t->scen = k < 40 ? SC_SUSP_FIRE : k < 70 ? SC_BUSY_QUEUE : k < 88 ? SC_SLOW_HANDLER : SC_ONESHOT_FIRED;
+	if (t->scen == SC_SLOW_HANDLER && !t->own) t->scen = SC_SUSP_FIRE;
+	cfgspec_t *f = &t->first;
+	memset(f, 0, sizeof(*f));
+	f->clock = (int)rndin(0, 2); f->how = (int)rndin(0, 1);
+	uint64_t d_ms = rndin(3, 25), iv_ms = rndin(4, 25);
+	f->delta_ns = (int64_t)(d_ms * NSEC_PER_MSEC + rndin(0, 999999));
+	f->interval_ns = (t->scen == SC_ONESHOT_FIRED || rndin(0, 99) < 25) ? 0 : iv_ms * NSEC_PER_MSEC + rndin(0, 999999);
+	f->leeway_ns = rndin(0, 1) ? 0 : NSEC_PER_MSEC;
+	t->nops = 0; t->inh_at = 0;
+	op_t *o;
+	uint64_t a1 = rndin(0, 60);
+	switch (t->scen) {
+	case SC_SUSP_FIRE: {
+		int racy = rndin(0, 99) < 15;       /* resume first, set_timer right behind it */
+		o = &t->ops[t->nops++]; o->op = OP_SUSPEND; o->at_ms = a1;
+		uint64_t a2 = a1 + d_ms + iv_ms * rndin(1, 3) + rndin(3, 10);
+		if (racy) { o = &t->ops[t->nops++]; o->op = OP_RESUME; o->at_ms = a2; }
+		o = &t->ops[t->nops++]; o->op = t->own ? OP_SET_OWN : OP_SET_FOREIGN; o->at_ms = a2; gen_reconf_spec(&o->spec);
+		if (!racy) { o = &t->ops[t->nops++]; o->op = OP_RESUME; o->at_ms = a2 + (rndin(0, 2) ? rndin(0, 15) : 0); }
+		break; }
+	case SC_BUSY_QUEUE: {
+		uint64_t dur_ms = (f->interval_ns ? iv_ms * rndin(25, 45) / 10 : 0) + d_ms + rndin(5, 15);
+		int behind = t->own && rndin(0, 1);  /* own queue: the set_timer block sits right behind the busy block, ahead of the source */
+		o = &t->ops[t->nops++]; o->op = OP_BUSY; o->at_ms = a1; o->dur_us = dur_ms * 1000;
+		o = &t->ops[t->nops++]; o->op = t->own ? OP_SET_OWN : OP_SET_FOREIGN; gen_reconf_spec(&o->spec);
+		o->at_ms = behind ? a1 : a1 + dur_ms * rndin(70, 95) / 100;
+		break; }
+	case SC_SLOW_HANDLER:
+		if (!f->interval_ns) f->interval_ns = iv_ms * NSEC_PER_MSEC;
+		t->slow_at = (int)rndin(1, 3); t->slow_us = iv_ms * rndin(25, 45) * 100;
+		t->inh_at = t->slow_at; gen_reconf_spec(&t->inh_spec);
+		break;
+	default:
+		o = &t->ops[t->nops++]; o->op = t->own ? OP_SET_OWN : OP_SET_FOREIGN; o->at_ms = d_ms + rndin(10, 60); gen_reconf_spec(&o->spec);
+		break;
+	}
+	if (rndin(0, 99) < 20 && t->nops && t->nops < MAXOPS - 1) {     /* and once more, some time later (or cancel) */
+		o = &t->ops[t->nops]; o->at_ms = t->ops[t->nops - 1].at_ms + rndin(20, 200); t->nops++;
+		if (rndin(0, 3)) { o->op = t->own ? OP_SET_OWN : OP_SET_FOREIGN; gen_spec(&o->spec, 1); } else o->op = OP_CANCEL;
+	}
+}
+
 static void gen_population(uint64_t span_ms)
 {
 	/* (trace mode rounds intervals to whole microseconds in main) */
@@ -313,6 +498,8 @@ static void gen_population(uint64_t span_ms)
 		if (t->kind != K_SOURCE) { t->first.interval_ns = 0; if (t->first.how == 3) t->first.how = 0; t->ops[0].at_ms = rndin(0, span_ms / 2); t->nops = 0; continue; }
 		t->own = rndin(0, 99) < 75;
 		t->strict = rndin(0, 3) == 0;
+		if (rndin(0, 99) < 35) { t->own = rndin(0, 99) < 50; gen_scenario(t); g_scen[t->scen]++; continue; }
+		g_scen[SC_RANDOM]++;
 		int nops = (int)rndin(0, 4);
 		uint64_t at = 0; int susp = 0, canc = 0;
 		for (int j = 0; j < nops && !canc && t->nops < MAXOPS - 1; j++) {
@@ -403,6 +590,11 @@ static void write_trace(long *nrec, int *exact, int *nslots)
 			fprintf(f, "{\"e\":\"kprog\",\"c\":%d,\"tgt\":%ld}\n", c + 1, us_of(c, r->b, &dummy)); lines++;
 		} else if (!strcmp(k, "kevent")) { fprintf(f, "{\"e\":\"kevent\",\"c\":%d}\n", (int)r->a + 1); lines++; }
 		else if (!strcmp(k, "wait")) { if (r->a != 0) { fprintf(f, "{\"e\":\"wait\"}\n"); lines++; } }
+		else if (!strcmp(k, "configure")) {
+			/* pd: ds_pending_data when the configuration was taken (0 none, 1 marker only, 2 count, 3 count|marker);
+			 * op/ov/nv: the configuring thread's next access to that word (1 store, 2 xchg, 3 load, 4 other rmw) */
+			fprintf(f, "{\"e\":\"configure\",\"pd\":%ld,\"op\":%ld,\"ov\":%ld,\"nv\":%ld}\n", r->a, r->b >> 16, (r->b >> 8) & 255, r->b & 255); lines++; g_trace_cfgs++;
+		}
 	}
 	if (n >= PCAP) *exact = 0;
 	fclose(f);
@@ -433,6 +625,7 @@ int main(int argc, char **argv)
 		g_prec = calloc(PCAP, sizeof(prec_t));
 		_dispatch_verif_probe = probe_cb;
 	}
+	_dispatch_verif_pre = hook_pre; _dispatch_verif_post = hook_post;
 	g_t0_up = _dispatch_uptime();
 	dispatch_queue_t gq = dispatch_get_global_queue(DISPATCH_QUEUE_PRIORITY_DEFAULT, 0);
 
@@ -456,6 +649,7 @@ int main(int argc, char **argv)
 				t->q = dispatch_queue_create(lbl, DISPATCH_QUEUE_SERIAL);
 				t->ds = dispatch_source_create(DISPATCH_SOURCE_TYPE_TIMER, 0, t->strict ? DISPATCH_TIMER_STRICT : 0, t->q);
 				dispatch_set_context(t->ds, t);
+				t->dt = t->ds->ds_timer_refs; map_timer(t->dt, t);
 				dispatch_source_set_event_handler_f(t->ds, source_handler);
 				t->last_done_prev = 1;
 				do_set(t, &t->first, 0); t->cur = 1;      /* before activation: ordered before everything */
@@ -474,6 +668,7 @@ int main(int argc, char **argv)
 		case OP_SET_FOREIGN: do_set(t, &o->spec, 0); break;
 		case OP_SUSPEND: tlog(t, 'P', 0, _dispatch_uptime(), 0, 0); atomic_store(&t->suspended, 1); dispatch_suspend(t->ds); break;
 		case OP_RESUME: tlog(t, 'R', 0, _dispatch_uptime(), 0, 0); dispatch_resume(t->ds); atomic_store(&t->suspended, 0); break;
+		case OP_BUSY: { useconds_t us = (useconds_t)o->dur_us; tlog(t, 'B', 0, _dispatch_uptime(), us, 0); dispatch_async(t->q, ^{ usleep(us); }); break; }
 		case OP_CANCEL: tlog(t, 'C', 0, _dispatch_uptime(), 0, 0); atomic_store(&t->cancelled, 1); dispatch_source_cancel(t->ds); break;
 		}
 	}
@@ -540,10 +735,14 @@ int main(int argc, char **argv)
 	if (g_traceout) { _dispatch_verif_probe = NULL; usleep(20000); write_trace(&trace_records, &trace_exact, &trace_slots); }
 	int nsrc = 0, naft = 0, own = 0; for (int i = 0; i < N; i++) { if (T[i].kind == K_SOURCE) { nsrc++; own += T[i].own; } else naft++; }
 	printf("{\"seed\":%llu,\"timers\":%d,\"sources\":%d,\"own_queue_controlled\":%d,\"after_blocks\":%d,\"set_timer_calls\":%ld,\"handler_invocations\":%ld,"
-			"\"exact_checks\":%ld,\"weak_checks\":%ld,\"after_runs\":%ld,\"zero_data_invocations\":%ld,\"inconclusive_wall_step\":%ld,\"final_wait_ms\":%llu,\"trace_records\":%ld,\"trace_exact\":%d,\"trace_slots\":%d,\"failed\":%d}\n",
+			"\"exact_checks\":%ld,\"weak_checks\":%ld,\"after_runs\":%ld,\"zero_data_invocations\":%ld,\"inconclusive_wall_step\":%ld,\"final_wait_ms\":%llu,\"trace_records\":%ld,\"trace_exact\":%d,\"trace_slots\":%d,"
+			"\"bound_checks\":%ld,\"bind_mismatch\":%ld,\"configures\":%ld,\"configure_on_disarmed_pending\":%ld,\"configure_on_armed_pending\":%ld,\"configure_unclosed\":%ld,"
+			"\"scen_susp_fire\":%ld,\"scen_busy_queue\":%ld,\"scen_slow_handler\":%ld,\"scen_oneshot_fired\":%ld,\"trace_configures\":%ld,\"failed\":%d}\n",
 			(unsigned long long)g_seed, N, nsrc, own, naft, atomic_load(&g_sets), atomic_load(&g_invocations), atomic_load(&g_checks_exact),
 			atomic_load(&g_checks_weak), atomic_load(&g_after_runs), atomic_load(&g_zero_data), atomic_load(&g_inconclusive),
-			(unsigned long long)waited_ms, trace_records, trace_exact, trace_slots, atomic_load(&g_fail));
+			(unsigned long long)waited_ms, trace_records, trace_exact, trace_slots,
+			atomic_load(&g_checks_bound), atomic_load(&g_bind_mismatch), atomic_load(&g_cfgs), atomic_load(&g_cfg_disarmed_pending), atomic_load(&g_cfg_armed_pending), atomic_load(&g_cfg_unclosed),
+			g_scen[SC_SUSP_FIRE], g_scen[SC_BUSY_QUEUE], g_scen[SC_SLOW_HANDLER], g_scen[SC_ONESHOT_FIRED], g_trace_cfgs, atomic_load(&g_fail));
 	fflush(stdout);
 	_exit(atomic_load(&g_fail) ? 2 : 0);
 }
